@@ -29,9 +29,10 @@ def run(ctx: Ctx) -> None:
     gate(ctx)
     stop(ctx)
     plugin(ctx)
-    from .C03 import graceful_budget, unchanged
+    from .C03 import graceful_budget, shutdown, unchanged
 
     unchanged(ctx, "R-C10-STOP")  # messages beyond the limit are returned untouched
+    shutdown(ctx, "R-C10-STOP")  # the M started executions finish (finish_gracefully) before their messages could be handed back by finish()
     graceful_budget(ctx, "R-C10-STOP")  # the M started executions get the graceful period to finish, they are not cut short by another budget
 
 
@@ -58,7 +59,16 @@ def gate(ctx: Ctx, rule="R-C10-GATE") -> None:
                     d = dotted(side)
                     if d and d.startswith("self.") and "max_tasks" not in d:
                         counter = d
+    if counter is None:
+        # compared with something that is not state of the runner: a local of one consume loop counts per queue, not per worker
+        local_cmp = sorted({dotted(side) for t in tests for c in ast.walk(t.ast) if isinstance(c, ast.Compare) for side in (c.left, c.comparators[0])
+                            if isinstance(side, ast.Name)})
+        if local_cmp:
+            ctx.fail(rule, f, f"budget compared with local {local_cmp}", f"the consume loop compares max_tasks with the local variable(s) {local_cmp}: every queue's consume loop "
+                     "counts on its own, so a worker serving several queues starts up to (queues x messages_limit) executions", node=tests[0], instance="budget counter shared by all queues")
+            return
     ctx.require(counter is not None, f"{f.qualname}: the quantity compared with max_tasks not recognised")
+    ctx.ok(rule, "budget counter shared by all queues", f"{counter} is state of the runner")
     cname = counter.split(".")[-1]
     for ordering in ("lt", "eq", "gt"):
         env = {}
